@@ -28,6 +28,16 @@ m = {
  "notes": claims.get('notes', ''),
  "not_applicable": []
 }
+def bounded_note(pid):
+    try:
+        pr = json.load(open(f'{V}/props/{pid}.json'))
+    except Exception:
+        return ''
+    b = pr.get('bounded') or []
+    if not b:
+        return ''
+    return ' Bounded stand-ins run by the same check (labelled bounded in the evidence, never counted as proved): ' + '; '.join(x['name'] for x in b) + '.'
+
 for p in props:
     pid = p['id']
     if pid in claims['checks']:
@@ -40,7 +50,7 @@ for p in props:
          "replay_cmd_template": "./replay {path}",
          "engine": "pyvc" if pid == 'C19' else "govc",
          "level_claimed": {"category": "proof", "text": c['text'], "design_ref": c.get('design_ref', f"DESIGN.md §6 {pid}")},
-         "level_note": c['note'],
+         "level_note": c['note'] + bounded_note(pid),
          "technique": c.get('technique', "contract-based deductive verification: #@ contracts on the real Python methods, VCs generated from the ast by symbolic execution, discharged by z3" if pid == 'C19' else "contract-based deductive verification: //@ contracts on the real Go functions, VCs generated from the typed AST, discharged by z3/cvc5")
         })
     else:
